@@ -243,6 +243,12 @@ class Cases:
             if st["ubfirst"] is None:
                 st["ubfirst"] = dict(case=_plain(case), got=repr(got), want="defined behaviour")
         if not ok:
+            # which aspect of the specification failed (views of C10 / C14 count only theirs)
+            aspect = "ub" if (got is not None and got.kind == "ub") else (
+                "valid" if "invalid:" in want else ("unchanged" if "modified" in want else "spec"))
+            by = st.setdefault("by", {})
+            by[aspect] = by.get(aspect, 0) + 1
+            st.setdefault("first_by", {}).setdefault(aspect, dict(case=_plain(case), got=repr(got), want=want))
             if got is not None and got.kind == "ub" and got.site is not None and got.site[0] != f.pkey:
                 # undefined behaviour inside another repository function: report it where it happens
                 key2 = (got.site[0], got.site[1], "no undefined behaviour on valid input")
@@ -281,6 +287,13 @@ def merge_stats(into, stats):
         t["n"] += st["n"]
         t["bad"] += st["bad"]
         t["ub"] = t.get("ub", 0) + st.get("ub", 0)
+        if st.get("by"):
+            tb = t.setdefault("by", {})
+            for k_, v_ in st["by"].items():
+                tb[k_] = tb.get(k_, 0) + v_
+            fb = t.setdefault("first_by", {})
+            for k_, v_ in st.get("first_by", {}).items():
+                fb.setdefault(k_, v_)
         if t["first"] is None:
             t["first"] = st["first"]
         if t.get("ubfirst") is None:
@@ -360,6 +373,59 @@ def _job(args):
         return ("ok", {key: st}, w.evals, w.I.executed, w.I.scaled)
     except AnalysisBroken as e:
         return ("broken", str(e), 0)
+
+
+INV_CLAUSES = ("succeeds iff", "accepts exactly", "accepts a strictly", "refuses a null", "valid", "move", "never refused",
+               "needs >= p+1 knots", "assignment from a support", "leaves both operands", "is refused with")
+VAL_CLAUSES = ("unchanged", "identical state", "does not depend on earlier", "whether or not", "one object as both operands",
+               "referring to one of a's own coefficients", "leaves both operands", "equals its copy", "is refused with")
+
+
+def _aspect_view(stats, clauses, aspects):
+    out = {}
+    for key, st in stats.items():
+        st2 = dict(st)
+        if not any(c in key[2] for c in clauses):
+            by = st.get("by", {})
+            st2["bad"] = sum(by.get(a, 0) for a in aspects)
+            if st2["bad"]:
+                st2["first"] = next((st.get("first_by", {}).get(a) for a in aspects if st.get("first_by", {}).get(a)),
+                                    st.get("first") or st.get("ubfirst"))
+        out[key] = st2
+    return out
+
+
+def clause_view(*keywords):
+    """Only the clauses a property states count (a suite shared between properties also evaluates the others)."""
+    def view(stats):
+        return {k: v for k, v in stats.items() if any(w_ in k[2] for w_ in keywords)}
+    return view
+
+
+# C11: acceptance conditions (both directions) of the validating entry points
+ACC_CLAUSES = ("succeeds iff", "accepts exactly", "accepts a strictly", "refuses a null", "never refused", "needs >= p+1 knots",
+               "is refused with", "default boundaries", "constructor accepts", "scalar values are compared")
+# C15: predicates
+PRED_CLAUSES = ("<=>", "equality", "!= is the negation", "a grid is never empty", "hasSameGrid", "isZero", "checkOverlap",
+                "reflexive", "equals its copy", "a == b", "moved-from spline is zero", "moved-from spline equals",
+                "moved-from spline overlaps", "whether or not", "scalar values are compared")
+# C08: comparisons of grids and refusals across grids
+GRID_CLAUSES = ("hasSameGrid", "differing grids", "DIFFERING_GRIDS", "grid equality", "!= is the negation",
+                "logically", "is refused with", "equality <=>", "scalar values are compared")
+# C13 (validity suite part): what happens to a support's grid and window under copy / move / assignment
+WINDOW_CLAUSES = ("support", "Support", "window")
+
+
+def inv_view(stats):
+    """C10's view: clauses about accepted states / validity count in full; of every other clause only the failures in
+    which an object ends up invalid or the evaluation is undefined (a wrong but valid result is not an invariant break)."""
+    return _aspect_view(stats, INV_CLAUSES, ("ub", "valid"))
+
+
+def val_view(stats):
+    """C14's view: clauses about operands staying unchanged / history independence / aliasing count in full; of every other
+    clause only the failures in which an operand was modified."""
+    return _aspect_view(stats, VAL_CLAUSES, ("unchanged",))
 
 
 def ub_view(stats, accessor_clauses=("at:", "absoluteFromRelative", "relativeFromAbsolute", "intervalIndexFromAbsolute",
